@@ -51,20 +51,20 @@ Soft(name, cond, detail) ==
 
 (* ----- steps nobody observes from outside ----- *)
 Hidden(s) ==
-  DoLDial(s) \cup DoWaitRet(s) \cup DoLWaitRet(s) \cup {t \in DoReaperStart(s) : t.exec = s.exec}
+  DoLDial(s) \cup DoDoneExit(s) \cup DoWaitRet(s) \cup DoLWaitRet(s) \cup {t \in DoReaperStart(s) : t.exec = s.exec}
   \cup UNION {{t \in DoKBody(s, i) : t.exec = s.exec} \cup DoKClose(s, i) \cup DoKKill9(s, i) \cup DoKEnd(s, i)
               \cup (IF s.child # "running" THEN DoKTerm(s, i) \cup DoKInt(s, i) ELSE {})
               \cup DoTransBody(s, i) \cup DoTransCommit(s, i) \cup DoKillBodyBasic(s, i)
-              \cup DoNoopBody(s, i) \cup DoStartBody(s, i) \cup {t \in DoStopBody(s, i) : t.exec = s.exec} \cup DoStopPush(s, i) \cup DoStopKill(s, i) \cup DoKUnblock(s, i) : i \in HIdx(s)}
+              \cup DoNoopBody(s, i) \cup DoStartBody(s, i) \cup {t \in DoStopBody(s, i) : t.exec = s.exec} \cup DoStopPush(s, i) \cup DoStopKill(s, i) \cup DoKPush(s, i) \cup DoKGrace(s, i) : i \in HIdx(s)}
 (* a panic is recorded when the process has died, which is later than the panic itself *)
 ObsPanic(s) ==
   {t \in DoLPoll(s) \cup DoReaperStart(s) \cup UNION {DoStopBody(s, i) \cup DoKBody(s, i) : i \in HIdx(s)} : t.exec = "panicked"}
 HiddenAll(s) == Hidden(s) \cup (IF s.exec = "ok" THEN {[t EXCEPT !.exec = "dying"] : t \in ObsPanic(s)} ELSE {})
-RECURSIVE Clo(_, _)
-Clo(X, n) ==
-  IF n = 0 THEN X
-  ELSE LET Y == X \cup UNION {HiddenAll(s) : s \in X} IN IF Y = X THEN X ELSE Clo(Y, n - 1)
-Closure(X) == Clo(X, 14)
+RECURSIVE Clo(_, _, _)
+Clo(seen, front, n) ==       \* breadth-first, only the new states are expanded
+  IF n = 0 \/ front = {} THEN seen
+  ELSE LET new == (UNION {HiddenAll(s) : s \in front}) \ seen IN Clo(seen \cup new, new, n - 1)
+Closure(X) == Clo(X, X, 16)
 
 (* ----- the observable step named by a line, from one candidate ----- *)
 ObsResp(s) ==
@@ -122,19 +122,14 @@ MonitorStep ==
 
 IsStep == Line.ev # "Reset" /\ ~Skipped
 
-TStepOk ==
+TStep ==
   /\ l <= Len(Trace) /\ IsStep /\ mode = "ok"
-  /\ NextCands # {}
-  /\ cands' = NextCands
+  /\ LET nc == NextCands IN
+       IF nc # {}
+         THEN cands' = nc /\ mode' = "ok"
+         ELSE PrintT(<<"DRIFT", scn, l, Line.ev>>) /\ mode' = "lost" /\ cands' = cands
   /\ MonitorStep
-  /\ l' = l + 1 /\ UNCHANGED <<vars, mode, scn, mk>>
-
-TStepDrift ==
-  /\ l <= Len(Trace) /\ IsStep /\ mode = "ok"
-  /\ NextCands = {}
-  /\ PrintT(<<"DRIFT", scn, l, Line.ev>>)
-  /\ MonitorStep
-  /\ mode' = "lost" /\ l' = l + 1 /\ UNCHANGED <<vars, scn, cands, mk>>
+  /\ l' = l + 1 /\ UNCHANGED <<vars, scn, mk>>
 
 TStepLost ==
   /\ l <= Len(Trace) /\ IsStep /\ mode = "lost"
@@ -157,7 +152,7 @@ TraceInit ==
   /\ l = 1 /\ mode = "lost" /\ scn = -1 /\ cands = {} /\ mk = [kind |-> "basic", beh |-> "sleep"]
   /\ msent = <<>> /\ mlast = NoReq /\ mlastSK = NoReq /\ mkillAt = 0 /\ mown = FALSE /\ mdone = FALSE /\ nviol = 0
 
-TraceNext == TStepOk \/ TStepDrift \/ TStepLost \/ TSkip \/ TReset
+TraceNext == TStep \/ TStepLost \/ TSkip \/ TReset
 
 TraceSpec == TraceInit /\ [][TraceNext]_allvars
 
